@@ -1430,6 +1430,7 @@ def paste_chunks(text):
 
 F19_WITNESS = ("vi", [b"a" * 66000], ["Esc", "R", "Esc", ".", "Enter"])
 F20_WITNESS = ("emacs", [b"x\n" + b"a" * 66000], ["Up", "Enter"])
+F23_WITNESS = ("vi", [b"a" * 65537 + b"\n"], ["Esc", "k", "j", "Enter"])
 
 
 def c17_long_cases(tier, seed):
@@ -1448,6 +1449,7 @@ def c17_long_cases(tier, seed):
                     prompt="> ", reads=2, chunks=chunks, cols=rng.choice([80, 200]), meta={"long": 1})
     cases.append(mk(*F19_WITNESS))
     cases.append(mk(*F20_WITNESS))
+    cases.append(mk(*F23_WITNESS))
     VI = [["Esc", "R", "Esc", "."], ["Esc", "s", "Esc", "."], ["Esc", "0", "R", "x", "Esc", "."], ["Esc", "A", "Esc", "."],
           ["Esc", "0", "d", "$", "u", "."], ["Esc", "0", "y", "$", "p", "."], ["Esc", "k", "j"], ["Esc", "x", "."],
           ["Esc", "0", "c", "w", "Esc", "."], ["Esc", "9", "9", "9", "9", "9", "l"], ["Esc", "0", "D", "P", "P"], ["Esc", "~", "."],
